@@ -13,6 +13,7 @@ from fractions import Fraction as F
 from .. import core, oracle
 from .. import mipbox as solverbox
 from ..core import Case, q2s
+from . import C04_ilp
 
 RULE = ("seeded instances with 0..8 projects, costs from integer / fractional pools with zero and equal costs, budget in "
         "{0, cheapest cost, subset sums, subset sum +- half a gap, half the total, the total, beyond the total}; every subset "
@@ -303,6 +304,7 @@ def cases_stream(ctx, n, m_hi=8):
 def run(ctx):
     ctx.rule = RULE
     run_cases(ctx, cases_stream(ctx, ctx.scale(400, 4000)))
+    C04_ilp.run_helpers(ctx, list(cases_stream(ctx, ctx.scale(40, 400))))  # the MIP the helper really builds == the program of the Lean model
 
 
 def search(ctx, disagreements):
